@@ -1019,11 +1019,16 @@ func (r *Runner) builtin(ctx context.Context, pos syntax.Pos, name string, args 
 
 		var vr expand.Variable
 		vr.Kind = expand.Indexed
+		if r.stdin == nil {
+			return failf(2, "%s: unable to read, there's no stdin\n", name)
+		}
+		stopCancel := r.cancelStdinReads(ctx)
 		scanner := bufio.NewScanner(r.stdin)
 		scanner.Split(mapfileSplit(delim[0], dropDelim))
 		for scanner.Scan() {
 			vr.List = append(vr.List, scanner.Text())
 		}
+		stopCancel()
 		if err := scanner.Err(); err != nil {
 			return failf(2, "%s: unable to read, %v\n", name, err)
 		}
@@ -1076,19 +1081,7 @@ func (r *Runner) readLine(ctx context.Context, raw bool) ([]byte, error) {
 	var line []byte
 	esc := false
 
-	stopc := make(chan struct{})
-	stop := context.AfterFunc(ctx, func() {
-		r.stdin.SetReadDeadline(time.Now())
-		close(stopc)
-	})
-	defer func() {
-		if !stop() {
-			// The AfterFunc was started.
-			// Wait for it to complete, and reset the file's deadline.
-			<-stopc
-			r.stdin.SetReadDeadline(time.Time{})
-		}
-	}()
+	defer r.cancelStdinReads(ctx)()
 	for {
 		var buf [1]byte
 		n, err := r.stdin.Read(buf[:])
@@ -1111,6 +1104,26 @@ func (r *Runner) readLine(ctx context.Context, raw bool) ([]byte, error) {
 		}
 		if err != nil {
 			return line, err
+		}
+	}
+}
+
+// cancelStdinReads makes blocked reads on the runner's stdin fail once ctx is
+// cancelled, via a read deadline. The returned function must be called once
+// the reads are done, to stop doing that and to reset the deadline.
+func (r *Runner) cancelStdinReads(ctx context.Context) (done func()) {
+	stdin := r.stdin
+	stopc := make(chan struct{})
+	stop := context.AfterFunc(ctx, func() {
+		stdin.SetReadDeadline(time.Now())
+		close(stopc)
+	})
+	return func() {
+		if !stop() {
+			// The AfterFunc was started.
+			// Wait for it to complete, and reset the file's deadline.
+			<-stopc
+			stdin.SetReadDeadline(time.Time{})
 		}
 	}
 }
